@@ -58,6 +58,39 @@ def main():
         fn(t)
         vv, rr = tracecheck.run("TraceFraming", {"streams": streams, "traces": [t]}, {"Magic": F.MAGIC, "MaxSize": rp.MAX_MESSAGE_SIZE}, ids=[1])
         results.append(("TraceFraming", name, vv[1][0]))
+    # ---- TraceSendPath (sequential calls on a real connection)
+    from harness import sendpath_drv as sp
+    good_s = sp.replay_sequential([2, 3, 1], [["send", 1], ["cansend", [10]], ["send", 2], ["send", 3], ["cansend", [10 ** 6, 5]], ["cansend", []]], 1)
+    sc = {"Lens": [1], "NetFrames": [], "MinerFrames": [], "MaxChunk": 1, "Locked": True, "Prop": "C10"}
+
+    def sp_run(t):
+        vv_, rr_ = tracecheck.run("TraceSendPath", [t], sc, ids=[1])
+        drift = tlc.tagged(rr_, "DRIFT")
+        return vv_[1][0] if vv_[1][0] != "ok" else ("DRIFT" if drift else "ok")
+    assert sp_run(good_s) == "ok"
+    for name, fn in (("one frame missing on the wire", lambda t: t["final"]["frames"].pop()),
+                     ("a frame twice on the wire", lambda t: t["final"]["frames"].append(1)),
+                     ("output left pending without write interest", lambda t: t["final"].update(pending=5, interest=False)),
+                     ("bytes written after a call (M layer)", lambda t: t["events"][1]["post"].__setitem__("wire", 11)),
+                     ("write interest after the last call (M layer)", lambda t: t["events"][-1]["post"].__setitem__("interest", True))):
+        t = copy.deepcopy(good_s)
+        fn(t)
+        results.append(("TraceSendPath", name, sp_run(t)))
+    # ---- TraceRetarget
+    rc = {"Timespan": 1209600, "W": 32}
+    prev = (1 << 255)
+    want = prev * 777777 // 1209600
+    ev_r = [{"kind": "validate", "boundary": True, "prev": list(prev.to_bytes(32, "big")), "elapsed": 777777, "stated": list(want.to_bytes(32, "big")), "accepted": True, "pure": True}]
+    vv, rr = tracecheck.run("TraceRetarget", ev_r, rc, ids=[1])
+    assert not tlc.tagged(rr, "FINDING")
+    for name, fn in (("accepted target off by one", lambda e: e.__setitem__("stated", list((want + 1).to_bytes(32, "big")))),
+                     ("elapsed time off by one second", lambda e: e.__setitem__("elapsed", 777778)),
+                     ("unchanged target accepted at a boundary", lambda e: e.__setitem__("stated", e["prev"]))):
+        e = copy.deepcopy(ev_r[0])
+        fn(e)
+        vv, rr = tracecheck.run("TraceRetarget", [e], rc, ids=[1])
+        f = tlc.tagged(rr, "FINDING")
+        results.append(("TraceRetarget", name, f[0][1] if f else "ok"))
     bad = [x for x in results if x[2] in ("ok", "inconclusive")]
     for x in results:
         print("%-14s %-55s -> %s" % x)
